@@ -91,7 +91,10 @@ def _table(rng, fmt, maxrows, nf=None, hdr=None):
         if fmt in ('json', 'jsonlines', 'jsonarrays'):
             pool = ['x', 'é', '\U0001F600', 'l1\nl2', '', None, 1, 2.5, True,
                     [1, 'a'], {'k': 1}, 'q"uote', 'nel\x85x', 'ls\u2028x',
-                    'ps\u2029x', 'cr\rx', 'ff\x0cx']
+                    'ps\u2029x', 'cr\rx', 'ff\x0cx',
+                    # an unpaired surrogate (os.fsdecode of a non-UTF-8 file
+                    # name): JSON's ASCII escaping carries it
+                    'lone\udce9x']
         elif fmt == 'pickle':
             pool = TEXTS + TYPED + [b'by\x00tes', (1, 'a'), [2, None]]
         elif kind == 'text':
@@ -255,6 +258,21 @@ class Target(object):
         if self.kind == 'path-bz2':
             return bz2.decompress(data)
         return data
+
+
+def _json_reference_ok(table, args):
+    """Does the standard encoder, given the same keyword arguments, turn
+    these cells into text that UTF-8 can carry?"""
+    kw = dict((k, v) for k, v in args.items()
+              if k in ('indent', 'check_circular', 'ensure_ascii',
+                       'separators'))
+    if 'separators' in kw:
+        kw['separators'] = tuple(kw['separators'])
+    try:
+        json.dumps([list(r) for r in table], **kw).encode('utf-8')
+        return True
+    except Exception:
+        return False
 
 
 def _csvargs(fmt, args):
@@ -462,6 +480,14 @@ def run_case(case):
                 try:
                     _write(e, fmt, op, table, tgt.w, args, wh)
                 except (UnicodeError, KeyError, IndexError, csv.Error) as ex:
+                    if fmt in ('json', 'jsonlines', 'jsonarrays') and \
+                            isinstance(ex, UnicodeError) and \
+                            _json_reference_ok(table, args):
+                        raise _Bad('write-raised', '%s: %s #%d raised %s: %s '
+                                   '(json.dumps with the same arguments '
+                                   'encodes these rows, and the result is '
+                                   'valid UTF-8)'
+                                   % (what, op, opi, type(ex).__name__, ex))
                     if fmt == 'text' or isinstance(ex, UnicodeError):
                         raise _Inapplicable(str(ex))
                     raise _Bad('write-raised', '%s: %s #%d raised %s: %s '
